@@ -193,3 +193,35 @@ Theorem C13_client_full_voc : forall c is_request app x, prepare c is_request ap
   forallb full_voc (flatten x) = true.
 Proof. exact ConcreteProofs.client_full_voc. Qed.
 Print Assumptions C13_client_full_voc.
+
+(* ---- the two extra long-term monitors the driver runs next to mon_C13 on every observed call of the implementation, on the
+   long-term monitor state BEFORE the call (classes `lt-credential-attributes`, `lt-integrity-key`): they accept EVERY step of
+   EVERY well-formed history of the model, for every configuration and credential mechanism (Proofs/AgentMeets3.v).
+   `run_mon_lt` is run_mon recording, for each step, the monitor state before it (lv_before), monitor_step's verdicts
+   (lv_verdicts) and the two answers lv_cred = mon_C13_ltcred cc (ma_lt lv_before) .. / lv_key = mon_C13_ltkey cc (ma_lt lv_before) ..;
+   C13_lt_run_is_run_mon: its verdict lists are run_mon's; C13_model_meets_lt_monitors_pointwise: the same two facts without
+   run_mon_lt, on the state monitor_step has threaded through any prefix of the history. wf_apps is not used by the proofs. *)
+From Rustun Require Import Proofs.AgentMeets3.
+Theorem C13_lt_run_is_run_mon : forall (mc:mcfg) (cc:ccfg) (ops:list op) (c:client) (s:mall),
+  map lv_verdicts (run_mon_lt mc cc c s ops) = run_mon mc cc c s ops.
+Proof. exact AgentMeets3.run_mon_lt_verdicts. Qed.
+Print Assumptions C13_lt_run_is_run_mon.
+Theorem C13_model_meets_ltcred_monitor : forall (cf:config) (m:mech) (mc:mcfg) (cc:ccfg) (ops:list op),
+  consistent mc cf -> consistent_cc cc cf m -> well_formed_history ops -> wf_apps ops ->
+  forall x, In x (run_mon_lt mc cc (init cf m) (mall0 cc) ops) -> lv_cred x = true.
+Proof. exact AgentMeets3.model_meets_C13_ltcred. Qed.
+Print Assumptions C13_model_meets_ltcred_monitor.
+Theorem C13_model_meets_ltkey_monitor : forall (cf:config) (m:mech) (mc:mcfg) (cc:ccfg) (ops:list op),
+  consistent mc cf -> consistent_cc cc cf m -> well_formed_history ops -> wf_apps ops ->
+  forall x, In x (run_mon_lt mc cc (init cf m) (mall0 cc) ops) -> lv_key x = true.
+Proof. exact AgentMeets3.model_meets_C13_ltkey. Qed.
+Print Assumptions C13_model_meets_ltkey_monitor.
+Theorem C13_model_meets_lt_monitors_pointwise : forall (cf:config) (m:mech) (mc:mcfg) (cc:ccfg) (a:list op) (o:op) (b:list op),
+  consistent mc cf -> consistent_cc cc cf m -> well_formed_history (a ++ o :: b) ->
+  let c1 := fst (run_state mc cc (init cf m) (mall0 cc) a) in
+  let s1 := snd (run_state mc cc (init cf m) (mall0 cc) a) in
+  let c' := fst (fst (step c1 o)) in let rep := snd (fst (step c1 o)) in let evs := snd (step c1 o) in
+  mon_C13_ltcred cc (ma_lt s1) (mop_of o rep) (obs_of c1 c' o rep evs) = true
+  /\ mon_C13_ltkey cc (ma_lt s1) (mop_of o rep) (obs_of c1 c' o rep evs) = true.
+Proof. exact AgentMeets3.model_meets_C13_lt_pointwise. Qed.
+Print Assumptions C13_model_meets_lt_monitors_pointwise.
